@@ -29,6 +29,8 @@ import RelicVerif.Lemmas.Tnaf
 import RelicVerif.Lemmas.EbMul
 import RelicVerif.Lemmas.MulAlg
 import RelicVerif.Lemmas.NafTop
+import RelicVerif.Lemmas.FbInvSim
+import RelicVerif.Lemmas.FbInvEuclid
 
 namespace Relic.Props.C16
 open Polynomial
@@ -493,6 +495,80 @@ theorem eb_mul_rtnaf_correct (hτ : τ ^ 2 = (u : R) * τ - 2) (hu : u = 1 ∨ u
   exact natAbs_mod_zsmul p N hN k
 
 end koblitz
+
+/-! ## fb_inv_sim -/
+
+/-- the specification's inverse is a field element -/
+theorem isElem_inv (F : Field) (hF : F.wellFormed = true) (a : Nat) : bitLen (F.inv a) ≤ F.m := by
+  obtain ⟨_, _, h3, _⟩ := wf_parts hF
+  unfold Field.inv
+  simp only []
+  split_ifs
+  · exact isElem_pmod F hF _
+  · rw [invFermat_eq, show F.m - 1 = (F.m - 2) + 1 by omega, ifSt_succ]
+    exact isElem_mul F hF _ _
+
+/-- fb_inv_sim (Montgomery's trick as coded: forward products, one call of fb_inv, backward pass) for every list length ≥ 1 and any
+    fb_inv meeting its contract: the error of fb_inv when some element is zero, else every output is the inverse of its input -/
+theorem fb_inv_sim_correct (F : Field) (hF : F.wellFormed = true) (hirr : Irreducible (toPoly F.f))
+    (inv : Nat → Option Nat) (hinv : Relic.Lemmas.FbInvSim.InvContract F inv)
+    (as : List Nat) (hne : as ≠ []) (hel : ∀ a ∈ as, bitLen a ≤ F.m) :
+    ((∃ a ∈ as, a = 0) → FbInv.invSim F.mul inv as = none) ∧
+    ((∀ a ∈ as, a ≠ 0) → ∃ out, FbInv.invSim F.mul inv as = some out ∧
+      List.Forall₂ (fun a x => bitLen x ≤ F.m ∧ F.mul a x = 1) as out) :=
+  Relic.Lemmas.FbInvSim.invSim_spec F hF hirr inv hinv as hne hel
+
+/-- the contract holds for the inversion the driver plugs in (zero reported, else the specification's inverse) -/
+theorem fb_inv_contract (F : Field) (hF : F.wellFormed = true) (hz : FrobFix F) (hirr : Irreducible (toPoly F.f)) :
+    Relic.Lemmas.FbInvSim.InvContract F (fun x => if x = 0 then none else some (F.inv x)) := by
+  refine ⟨by simp, fun a ha ha0 => ⟨F.inv a, by simp [ha0], isElem_inv F hF a, inv_spec F hF hz hirr a ha ha0⟩⟩
+
+/-! ## fb_inv_binar / fb_inv_almos / fb_inv_exgcd (models executed by the driver on every presented line) -/
+
+/-- fb_inv_binar as coded (two halving loops, exits through u = 1 or v = 1, comparison by digit count and top digit, any digit width w):
+    zero is reported; whatever the loop returns is the reduced inverse.
+    Full statement, not proved: `a ≠ 0 → bitLen a ≤ F.m → ∃ c, invBinar w F a = some c` (the fuel 2(bitLen a + bitLen f) + 2 suffices;
+    the driver reports a line on which the model runs out of fuel as a model difference). -/
+theorem fb_inv_binar_partial (F : Field) (hF : F.wellFormed = true) (hirr : Irreducible (toPoly F.f)) (w a : Nat) :
+    (a = 0 → FbInv.invBinar w F a = none) ∧ (∀ c, FbInv.invBinar w F a = some c → bitLen c ≤ F.m ∧ F.mul a c = 1) :=
+  Relic.Lemmas.FbInvEuclid.invBinar_partial F hF hirr w a
+
+/-- fb_inv_almos as coded (one halving loop, swap when u is shorter, add): same statement; termination not proved -/
+theorem fb_inv_almos_partial (F : Field) (hF : F.wellFormed = true) (hirr : Irreducible (toPoly F.f)) (w a : Nat) :
+    (a = 0 → FbInv.invAlmos w F a = none) ∧ (∀ c, FbInv.invAlmos w F a = some c → bitLen c ≤ F.m ∧ F.mul a c = 1) :=
+  Relic.Lemmas.FbInvEuclid.invAlmos_partial F hF hirr w a
+
+/-- fb_inv_exgcd as coded (swap when the degree difference is negative, u += v·z^j, g1 += g2·z^j, final conditional addition of f):
+    zero is reported; whatever is returned satisfies a·c = 1 in GF(2)[z]/(f) (f need not be irreducible) and, for a reduced a, is reduced
+    (invariant: deg g1 + deg v ≤ m, deg g2 + deg u ≤ m, so the cofactor has degree ≤ m and the final addition of f clears z^m).
+    Full statement, not proved: termination within the fuel. -/
+theorem fb_inv_exgcd_partial (F : Field) (hF : F.wellFormed = true) (a : Nat) :
+    (a = 0 → FbInv.invExgcd F a = none) ∧ (∀ c, FbInv.invExgcd F a = some c → F.mul a c = 1 ∧ (bitLen a ≤ F.m → bitLen c ≤ F.m)) :=
+  ⟨(Relic.Lemmas.FbInvEuclid.invExgcd_partial F hF a).1, fun c h =>
+    ⟨(Relic.Lemmas.FbInvEuclid.invExgcd_partial F hF a).2 c h, fun ha => Relic.Lemmas.FbInvEuclid.invExgcd_isElem F hF a c ha h⟩⟩
+
+/-- the value returned by the models of fb_inv_binar / fb_inv_almos / fb_inv_exgcd is the specification's inverse: the model column and
+    the specification of the driver agree whenever a model returns -/
+theorem fb_inv_euclid_value (F : Field) (hF : F.wellFormed = true) (hz : FrobFix F) (hirr : Irreducible (toPoly F.f)) (w a c : Nat)
+    (ha : bitLen a ≤ F.m)
+    (h : FbInv.invBinar w F a = some c ∨ FbInv.invAlmos w F a = some c ∨ FbInv.invExgcd F a = some c) : c = F.inv a := by
+  have ha0 : a ≠ 0 := by
+    rintro rfl
+    rcases h with h | h | h
+    · rw [(fb_inv_binar_partial F hF hirr w 0).1 rfl] at h; exact absurd h (by simp)
+    · rw [(fb_inv_almos_partial F hF hirr w 0).1 rfl] at h; exact absurd h (by simp)
+    · rw [(fb_inv_exgcd_partial F hF 0).1 rfl] at h; exact absurd h (by simp)
+  have hc : bitLen c ≤ F.m ∧ F.mul a c = 1 := by
+    rcases h with h | h | h
+    · exact (fb_inv_binar_partial F hF hirr w a).2 c h
+    · exact (fb_inv_almos_partial F hF hirr w a).2 c h
+    · exact ⟨((fb_inv_exgcd_partial F hF a).2 c h).2 ha, ((fb_inv_exgcd_partial F hF a).2 c h).1⟩
+  exact inv_unique F hF a c (F.inv a) hc.1 (isElem_inv F hF a) hc.2 (inv_spec F hF hz hirr a ha ha0)
+
+/-- the models run to completion and return the inverse on a concrete field: GF(2^7), a = z^6 + z^5 + z^2 (all three, 64-bit digits) -/
+example : FbInv.invBinar 64 ⟨7, 131⟩ 100 = some ((⟨7, 131⟩ : Field).inv 100) ∧ FbInv.invAlmos 64 ⟨7, 131⟩ 100 = some ((⟨7, 131⟩ : Field).inv 100) ∧
+    FbInv.invExgcd ⟨7, 131⟩ 100 = some ((⟨7, 131⟩ : Field).inv 100) := by
+  decide +kernel
 
 /-! ## non-vacuity -/
 
